@@ -752,6 +752,10 @@ func (p *path) search(toks tokens, verb string) (*method, params, error) {
 		}
 	}
 
+	// Variables follow a slash, the verb is a literal.
+	if toks[0].typ != tokenSlash {
+		return nil, nil, errNotFound
+	}
 	for _, v := range p.variables {
 		l := v.index(toks[1:]) + 1 // bump off /
 		if l == 0 {
